@@ -25,6 +25,10 @@ type Tracker struct {
 	// a violation of the delete property (C10), not of write durability.
 	TolerateResurrected bool
 	Resurrected         int
+	// TolerateMissing makes CheckRead accept absent points (subset check).
+	TolerateMissing bool
+	// TolerateStale makes CheckRead accept any value the point ever held.
+	TolerateStale bool
 
 	// Pending describes the one operation in flight (crash images only).
 	PendingWrite  []Point
@@ -43,7 +47,7 @@ func NewTracker() *Tracker {
 }
 
 func (t *Tracker) Clone() *Tracker {
-	n := &Tracker{M: t.M.Clone(), Ambig: map[Key]map[int64][]Val{}, Ever: t.Ever, TolerateResurrected: t.TolerateResurrected}
+	n := &Tracker{M: t.M.Clone(), Ambig: map[Key]map[int64][]Val{}, Ever: t.Ever, TolerateResurrected: t.TolerateResurrected, TolerateMissing: t.TolerateMissing, TolerateStale: t.TolerateStale}
 	for k, tv := range t.Ambig {
 		c := map[int64][]Val{}
 		for ts, vs := range tv {
@@ -205,12 +209,18 @@ func (t *Tracker) CheckRead(k Key, got []TV, min, max int64, asc bool) *Mismatch
 				break
 			}
 		}
+		if !okv && t.TolerateStale && t.wasEver(k, p.T, p.V) {
+			okv = true
+		}
 		if !okv {
 			return &Mismatch{"wrong-value", k, p.T, p.V.String(), fmt.Sprint(e.Vals)}
 		}
 		seen[p.T] = true
 	}
 	var missing []int64
+	if t.TolerateMissing {
+		return nil
+	}
 	for ts, e := range exp {
 		if e.Required && ts >= min && ts <= max && !seen[ts] {
 			missing = append(missing, ts)
